@@ -29,6 +29,9 @@ def reclaimer_oracle(prog, raw):
     if 'DEADLOCK' in raw: return 'stuck state: a thread waits for ever (a queued call is never made by the background reclaimer, or barrier / unregister never returns)'
     if 'STEP LIMIT' in raw: return 'live-lock: a thread waits for calls that the background reclaimer never makes (lost wake-up) - step limit reached'
     if 'ABORT' in raw or 'BUG ' in raw: return 'abnormal run: ' + raw[-300:]
+    import oracles
+    so = oracles.sleeper_order(raw)
+    if so: return so
     ev = [l.split() for l in raw.splitlines() if l and l[0].isdigit()]
     q = {}; made = {}; owner = {}; qtime = {}; open_ = {}; sections = []; depth = {}; qdone = {}
     for i, p in enumerate(ev):
